@@ -4,4 +4,6 @@
 pub mod gf;
 pub mod iso;
 pub mod charset;
+pub mod tables;
+pub mod annexf;
 pub mod kf;
